@@ -96,7 +96,7 @@ def _foreign_body_ok(m, t, is_method):
     a = m.args
     if a.vararg or a.kwarg or a.kwonlyargs or a.posonlyargs or (is_method and not a.args):
         return None
-    if any(not isinstance(d, ast.Constant) for d in a.defaults):
+    if any(not (isinstance(d, ast.Constant) or (isinstance(d, ast.Attribute) and isinstance(d.value, ast.Name) and d.value.id == "constants")) for d in a.defaults):
         return None
     local = set(x.arg for x in a.args)
     for n in ast.walk(m):
@@ -333,7 +333,7 @@ def _build_records(trees, known):
             if not ok or init is None or not init.args.args:
                 continue
             a = init.args
-            if a.vararg or a.kwarg or a.kwonlyargs or a.posonlyargs or any(not isinstance(d, ast.Constant) for d in a.defaults):
+            if a.vararg or a.kwarg or a.kwonlyargs or a.posonlyargs or any(not (isinstance(d, ast.Constant) or (isinstance(d, ast.Attribute) and isinstance(d.value, ast.Name) and d.value.id == "constants")) for d in a.defaults):
                 continue
             selfn = a.args[0].arg
             fields = []
@@ -821,6 +821,11 @@ def _has_call(e):
     return False
 
 
+def f_is_stable_attr(fc, f):
+    """`self.<attr>.<method>` with <attr> bound by the constructor only: looking the method up has no effect and does not depend on when it is done"""
+    return isinstance(f, ast.Attribute) and isinstance(f.value, ast.Attribute) and f.value.attr in fc.stable_attrs
+
+
 def _is_const_true(e):
     return isinstance(e, ast.Constant) and bool(e.value) is True and e.value is not None
 
@@ -927,7 +932,14 @@ def always_leaves_function(stmts):
         return True
     if isinstance(last, ast.If):
         return always_leaves_function(last.body) and always_leaves_function(last.orelse)
+    if isinstance(last, (ast.With, ast.AsyncWith)) and all(_plain_lock_item(it) for it in last.items):
+        return always_leaves_function(last.body)          # (a lock does not swallow exceptions, the block is left the way its body is)
     return False
+
+
+def _plain_lock_item(it):
+    e = it.context_expr
+    return it.optional_vars is None and isinstance(e, ast.Attribute) and isinstance(e.value, ast.Name) and e.attr.endswith("lock")
 
 
 def negate(test):
@@ -2648,6 +2660,26 @@ class FuncCanon(object):
                             n.args[k:k + 1] = a.value.elts
                             self.bump("STAR")
                             return True
+                    # self.<attr>.<method>(*f(..)): the starred value is the result of a package function that always returns an n-tuple, the
+                    # method takes exactly n arguments  ->  the result is bound to a temporary first (the attribute look-up has no effect)
+                    ps0 = self._attr_method_params(n.func)
+                    if ps0 is not None and len(n.args) == 1 and not n.keywords and isinstance(n.args[0], ast.Starred) and ps0[1] == 0 and ps0[0] \
+                            and isinstance(st, (ast.Expr, ast.Assign)) and (st.value is n or (isinstance(st.value, ast.Await) and st.value.value is n)):
+                        sv = n.args[0].value
+                        inner = sv.value if isinstance(sv, ast.Await) else sv
+                        if isinstance(inner, ast.Call) and self._call_arity(inner) == len(ps0[0]) and f_is_stable_attr(self, n.func):
+                            k_ = 1
+                            while ("_st%d" % k_) in self.stores or ("_st%d" % k_) in self.loads:
+                                k_ += 1
+                            tmp = "_st%d" % k_
+                            self.fresh.add(tmp)
+                            pre = ast.copy_location(ast.Assign(targets=[ast.Name(id=tmp, ctx=ast.Store())], value=sv), st)
+                            n.args[:] = [ast.copy_location(ast.Subscript(value=ast.Name(id=tmp, ctx=ast.Load()), slice=ast.Constant(value=i_), ctx=ast.Load()), n.args[0]) for i_ in range(len(ps0[0]))]
+                            ast.fix_missing_locations(pre)
+                            ast.fix_missing_locations(n)
+                            blk.insert(blk.index(st), pre)
+                            self.bump("STAR")
+                            return True
                     # self.<attr>.<method>(*v): the attribute is an instance of a package class whose method takes exactly n arguments
                     ps = self._attr_method_params(n.func)
                     if ps is not None and len(n.args) == 1 and not n.keywords and isinstance(n.args[0], ast.Starred) and isinstance(n.args[0].value, ast.Name) \
@@ -3881,6 +3913,8 @@ class Inliner(object):
                         if not (len(gb) == 1 and isinstance(gb[0], ast.Return) and isinstance(gb[0].value, ast.Attribute) and gb[0].value.attr == S and isinstance(gb[0].value.value, ast.Name) and gb[0].value.value.id == sn):
                             continue
                         pname = g.name
+                        if "%s.%s.%s" % (self.modname, cdef.name, pname) in self.known:
+                            continue          # a property the rule tables know stays a property (its storage is named below)
                         others = [m for m in cdef.body if isinstance(m, (ast.FunctionDef, ast.AsyncFunctionDef)) and m.name == pname and m is not g]
                         setter = None
                         good = True
@@ -3901,6 +3935,17 @@ class Inliner(object):
                             if isinstance(n, ast.Attribute) and n.attr == S:
                                 n.attr = pname
                         self.log.append("alias property %s.%s is the attribute %s" % (cdef.name, pname, S))
+                # the new attributes may be known ones under another name (`_state__available` is the `_available` flag): name recovery for this class
+                try:
+                    from .rename import Renamer
+                    from .known_shapes import SHAPES
+                    if self.modname in SHAPES and cdef.name in SHAPES[self.modname]["classes"]:
+                        rn = Renamer({self.modname: self.tree}, SHAPES)
+                        rn._attrs(self.modname, cdef)
+                        for r_ in rn.log:
+                            self.log.append("renamed after flattening: %s" % (r_,))
+                except ImportError:
+                    pass
         return done
 
     def _record_of(self, caller, name):
